@@ -34,6 +34,7 @@ struct TaskCtx {
   int guard_depth = 0;         // >0 while holding a __cxa_guard: not preemptible
   uint64_t guard_brackets = 0; // number of function-local-static initialisations this task performed under a guard
   uint64_t yields = 0;
+  const char* runtime_state_call = nullptr;   // first process-global runtime function the library called (rand, setlocale, ...)
 };
 
 struct AllocStats {
@@ -81,7 +82,7 @@ int64_t rt_static_diff();
 // ---- scheduler: real threads, exactly one runnable at a time ----
 typedef void (*TaskFn)(void* arg, int task);
 struct SchedSeg { int task; uint64_t quantum; uint64_t ran; uint32_t at_guard; int why; }; // why: 0 quantum,1 yield-point,2 finished
-struct SchedResult { uint64_t switches = 0; uint64_t lib_preemptions = 0; int tasks_preempted_in_lib = 0; };
+struct SchedResult { uint64_t switches = 0; uint64_t lib_preemptions = 0; int tasks_preempted_in_lib = 0; const char* runtime_state_call = nullptr; };
 // Runs ntasks tasks under the schedule chooser. choose(ctx, alive_mask, &task, &quantum) picks the next segment.
 typedef void (*ChooseFn)(void* ctx, uint64_t alive_mask, int last_task, uint32_t last_guard, int* task, uint64_t* quantum);
 void rt_run_tasks(int ntasks, TaskFn fn, void* arg, ChooseFn choose, void* choose_ctx,
